@@ -239,14 +239,21 @@ def _sized(tree, cls, side, f):
     return out[0], out[1]
 
 
-def _ctx(tree, seqs, cls, unknown_base=False):
+def _ctx(tree, seqs, cls, unknown_base=False, side='cur'):
     others = set()
     if tree is not None:
         for c in ast.walk(tree):
             if isinstance(c, ast.ClassDef) and (cls is None or c is not cls):
                 others |= {g.name for g in c.body if isinstance(g, (ast.FunctionDef, ast.AsyncFunctionDef))}
     glob = {x for n in ast.walk(tree) if isinstance(n, ast.Global) for x in n.names} if tree is not None else set()
-    return {'mutable_globals': glob, 'module_bound': equiv.module_bound_names(tree) if tree is not None else (),
+    mw = {}
+    if cls is not None and tree is not None and not unknown_base:
+        _UNRESOLVED[0] = False
+        scope_nodes = _class_scope(tree, cls, side)
+        if not _UNRESOLVED[0]:
+            # _class_scope returns the flattened bodies (class first, then bases): the first definition of a name wins
+            mw = equiv.class_method_writes([scope_nodes], others)
+    return {'method_writes': mw, 'mutable_globals': glob, 'module_bound': equiv.module_bound_names(tree) if tree is not None else (),
             'all_props': (set(equiv.module_all_properties(tree)) if tree is not None else set()) | ({'*'} if unknown_base else set()),
             'seqs': seqs, 'other_class_methods': others}
 
@@ -269,7 +276,7 @@ def canonical_pair(f, cls, rf, cls_r, new_helpers, gone_helpers, cur_consts, ref
     if c1 is None:
         return None, None
     c2 = equiv.canonical(rf, gone_helpers, ref_consts, s2, cls_r.name if cls_r is not None else '', ref_props, equiv.module_dicts(ref_tree) if ref_tree is not None else None,
-                         ctx=_ctx(ref_tree, q2, cls_r, unknown_base))
+                         ctx=_ctx(ref_tree, q2, cls_r, unknown_base, 'ref'))
     return c1, c2
 
 
